@@ -106,6 +106,8 @@ inline int run(int argc, char** argv) {
             census_modal += d.census.modal_reuse;
             census_cblock += d.census.cblock;
             model::MLib a = m, b = d.lib;
+            for (size_t ci = 0; ci < b.cells.size() && ci < d.cells.size(); ci++)
+                for (auto& pr : d.cells[ci].name_props) b.cells[ci].props.push_back(pr);
             if (!ch.special_shapes)
                 for (auto& c : a.cells)
                     for (auto& p : c.polys) p.hint = 0;
